@@ -8,6 +8,7 @@ From Coq Require Import List Arith ZArith Bool Lia Ring Reals Lra Sorting.Permut
 From Coquelicot Require Import Coquelicot.
 From PM Require Import C20Model.
 Import ListNotations.
+Arguments gpeval : simpl never.
 
 (* ========================================================================= *)
 (* Part 1: any commutative ring                                               *)
@@ -45,8 +46,8 @@ Section PolyThm.
   Lemma g_peval_app : forall p q x, pe (p ++ q) x = pe p x * pw x (length q) + pe q x.
   Proof.
     induction p as [|c p IH]; intros q x.
-    - simpl. rewrite g_peval_nil. ring.
-    - simpl. rewrite !g_peval_cons, IH, app_length, g_pow_add. ring.
+    - change ([] ++ q) with q. rewrite g_peval_nil. ring.
+    - change ((c :: p) ++ q) with (c :: (p ++ q)). rewrite !g_peval_cons, IH, app_length, g_pow_add. ring.
   Qed.
 
   Lemma g_peval_zeros : forall n x, pe (repeat rO n) x = rO.
@@ -243,7 +244,10 @@ Definition pderiv_aux := gpderiv_aux R 0 Rplus.
 Lemma pderiv_aux_cons : forall c d p,
   pderiv_aux (c :: d :: p) = (INR (S (length p)) * c) :: pderiv_aux (d :: p).
 Proof.
-  intros. unfold pderiv_aux. simpl gpderiv_aux at 1. rewrite gnmul_R. reflexivity.
+  intros. unfold pderiv_aux.
+  change (gpderiv_aux R 0 Rplus (c :: d :: p))
+    with (gnmul R 0 Rplus (length (d :: p)) c :: gpderiv_aux R 0 Rplus (d :: p)).
+  rewrite gnmul_R. reflexivity.
 Qed.
 
 Lemma pderiv_aux_length : forall p, length (pderiv_aux p) = (length p - 1)%nat.
@@ -290,7 +294,193 @@ Proof.
   rewrite pderiv_aux_cons. destruct i as [|i].
   - simpl nth. simpl length. replace (S (S (length p)) - 1 - 0)%nat with (S (length p)) by lia. reflexivity.
   - simpl nth at 1. simpl length in *.
-    destruct p as [|e p]; [simpl in *; lia|].
-    rewrite IH by (simpl; lia). simpl length. simpl nth.
+    destruct p as [|e p]; [simpl in *; lia|]. simpl length in *.
+    rewrite IH by (simpl length; lia). simpl length. simpl nth.
     replace (S (S (S (length p))) - 1 - S i)%nat with (S (S (length p)) - 1 - i)%nat by lia. reflexivity.
+Qed.
+
+(* ========================================================================= *)
+(* Part 3: order 1 and 2 roots (Scalar.solve_quadratic, numerically stable form) *)
+(* ========================================================================= *)
+(* None = masked.  sign(zeros=False): -1 below zero, +1 otherwise *)
+Definition sgn1 (t : R) : R := if Rlt_dec t 0 then -1 else 1.
+
+Definition lin_root (a b : R) : option R := if Req_EM_T a 0 then None else Some (- b / a).
+
+(* neg_half_b = -0.5 b; discr = neg_half_b^2 - a c; term = neg_half_b + sign * sqrt discr;
+   x0 = c / term; x1 = term / a; x0 takes x1 where x0 is masked; x1 masked where x0 was masked
+   or x1 == x0.  sqrt of a negative number and division by zero are masked. *)
+Definition quad_raw (a b c : R) : option R * option R :=
+  let h := - (1 / 2) * b in
+  let d := h * h - a * c in
+  if Rlt_dec d 0 then (None, None) else
+  let t := h + sgn1 h * sqrt d in
+  let x1 := if Req_EM_T a 0 then None else Some (t / a) in
+  if Req_EM_T t 0 then (x1, None)
+  else (Some (c / t),
+        match x1 with
+        | Some v1 => if Req_EM_T v1 (c / t) then None else Some v1
+        | None => None
+        end).
+
+(* Qube.stack(x0, x1).sort(axis=0): increasing, masked last *)
+Definition sort2 (y : option R * option R) : option R * option R :=
+  match y with
+  | (Some u, Some v) => if Rlt_dec v u then (Some v, Some u) else (Some u, Some v)
+  | (None, Some v) => (Some v, None)
+  | _ => y
+  end.
+Definition quad_roots (a b c : R) : option R * option R := sort2 (quad_raw a b c).
+
+Definition disc (a b c : R) : R := b * b - 4 * a * c.
+Definition is_root2 (a b c r : R) : Prop := a * r * r + b * r + c = 0.
+
+Lemma lin_root_spec : forall a b, a <> 0 ->
+  exists r, lin_root a b = Some r /\ a * r + b = 0 /\ forall r', a * r' + b = 0 -> r' = r.
+Proof.
+  intros a b Ha. unfold lin_root. destruct (Req_EM_T a 0) as [E|_]; [contradiction|].
+  exists (- b / a). split; [reflexivity|]. split; [field; assumption|].
+  intros r' H. apply (Rmult_eq_reg_l a); [|assumption]. field_simplify; [lra|assumption].
+Qed.
+
+Lemma sgn1_sq : forall t, sgn1 t * sgn1 t = 1.
+Proof. intros. unfold sgn1. destruct (Rlt_dec t 0); ring. Qed.
+
+Lemma half_disc : forall a b c, (- (1 / 2) * b) * (- (1 / 2) * b) - a * c = disc a b c / 4.
+Proof. intros. unfold disc. field. Qed.
+
+(* the key identity of the stable form: term^2 + b term + a c = 0 *)
+Lemma term_identity : forall a b c, 0 <= disc a b c ->
+  let h := - (1 / 2) * b in let t := h + sgn1 h * sqrt (h * h - a * c) in
+  t * t + b * t + a * c = 0.
+Proof.
+  intros a b c Hd h t. subst t.
+  assert (Hs : sqrt (h * h - a * c) * sqrt (h * h - a * c) = h * h - a * c).
+  { apply sqrt_sqrt. unfold h. rewrite half_disc. lra. }
+  pose proof (sgn1_sq h) as Hg.
+  set (s := sqrt (h * h - a * c)) in *. set (g := sgn1 h) in *.
+  replace b with (- 2 * h) by (unfold h; field).
+  replace ((h + g * s) * (h + g * s) + -2 * h * (h + g * s) + a * c)
+    with ((g * g) * (s * s) - h * h + a * c) by ring.
+  rewrite Hg, Hs. ring.
+Qed.
+
+Lemma term_nonzero : forall a b c, 0 < disc a b c ->
+  let h := - (1 / 2) * b in h + sgn1 h * sqrt (h * h - a * c) <> 0.
+Proof.
+  intros a b c Hd h.
+  assert (Hp : 0 < sqrt (h * h - a * c)) by (apply sqrt_lt_R0; unfold h; rewrite half_disc; lra).
+  unfold sgn1. destruct (Rlt_dec h 0); lra.
+Qed.
+
+Theorem quad_negative_disc : forall a b c, disc a b c < 0 -> quad_roots a b c = (None, None).
+Proof.
+  intros a b c Hd. unfold quad_roots, quad_raw.
+  destruct (Rlt_dec _ 0) as [_|H]; [reflexivity|]. exfalso. apply H. rewrite half_disc. lra.
+Qed.
+
+Lemma sort2_in : forall y r, (fst (sort2 y) = Some r \/ snd (sort2 y) = Some r) ->
+  (fst y = Some r \/ snd y = Some r).
+Proof.
+  intros [[u|] [v|]] r; simpl; try tauto.
+  destruct (Rlt_dec v u); simpl; tauto.
+Qed.
+
+(* every value returned unmasked is a root *)
+Theorem quad_roots_are_roots : forall a b c r, a <> 0 ->
+  (fst (quad_roots a b c) = Some r \/ snd (quad_roots a b c) = Some r) -> is_root2 a b c r.
+Proof.
+  intros a b c r Ha H. apply sort2_in in H. unfold quad_raw in H.
+  destruct (Rlt_dec _ 0) as [_|Hd]; [simpl in H; destruct H; discriminate|].
+  assert (Hd' : 0 <= disc a b c) by (rewrite half_disc in Hd; lra).
+  pose proof (term_identity a b c Hd') as Ht. cbv zeta in Ht.
+  set (t := - (1 / 2) * b + sgn1 (- (1 / 2) * b) * sqrt (- (1 / 2) * b * (- (1 / 2) * b) - a * c)) in *.
+  assert (R1 : is_root2 a b c (t / a)).
+  { unfold is_root2. replace (a * (t / a) * (t / a) + b * (t / a) + c) with ((t * t + b * t + a * c) / a)
+      by (field; assumption). rewrite Ht. field. assumption. }
+  destruct (Req_EM_T a 0) as [E|_]; [contradiction|].
+  destruct (Req_EM_T t 0) as [T0|Tn].
+  - simpl in H. destruct H as [H|H]; [|discriminate]. injection H as <-. exact R1.
+  - assert (R0 : is_root2 a b c (c / t)).
+    { unfold is_root2. replace (a * (c / t) * (c / t) + b * (c / t) + c) with (c * (t * t + b * t + a * c) / (t * t))
+        by (field; assumption). rewrite Ht. field. assumption. }
+    simpl in H. destruct H as [H|H].
+    + injection H as <-. exact R0.
+    + destruct (Req_EM_T (t / a) (c / t)); [discriminate|]. injection H as <-. exact R1.
+Qed.
+
+(* two unmasked values are in strictly increasing order (the duplicate has been masked) *)
+Theorem quad_roots_sorted : forall a b c u v, quad_roots a b c = (Some u, Some v) -> u < v.
+Proof.
+  intros a b c u v H. unfold quad_roots in H.
+  assert (D : forall x y, quad_raw a b c = (Some x, Some y) -> x <> y).
+  { intros x y E. unfold quad_raw in E.
+    destruct (Rlt_dec _ 0); [discriminate|].
+    destruct (Req_EM_T a 0); destruct (Req_EM_T _ 0); try discriminate.
+    destruct (Req_EM_T _ _) as [|N]; [discriminate|]. injection E as <- <-. intro; apply N; symmetry; assumption. }
+  destruct (quad_raw a b c) as [[x|] [y|]] eqn:E; simpl in H; try discriminate.
+  specialize (D x y eq_refl).
+  destruct (Rlt_dec y x); injection H as <- <-; lra.
+Qed.
+
+(* masked entries come last *)
+Theorem quad_roots_masked_last : forall a b c v, quad_roots a b c <> (None, Some v).
+Proof.
+  intros a b c v. unfold quad_roots. destruct (quad_raw a b c) as [[x|] [y|]]; simpl; try discriminate.
+  destruct (Rlt_dec y x); discriminate.
+Qed.
+
+(* disc = 0: one root, the duplicate is masked *)
+Theorem quad_zero_disc : forall a b c, a <> 0 -> disc a b c = 0 ->
+  quad_roots a b c = (Some (- b / (2 * a)), None).
+Proof.
+  intros a b c Ha Hd. unfold quad_roots, quad_raw.
+  assert (E0 : - (1 / 2) * b * (- (1 / 2) * b) - a * c = 0) by (rewrite half_disc, Hd; field).
+  rewrite E0, sqrt_0.
+  destruct (Rlt_dec 0 0); [lra|]. destruct (Req_EM_T a 0); [contradiction|].
+  replace (- (1 / 2) * b + sgn1 (- (1 / 2) * b) * 0) with (- (1 / 2) * b) by ring.
+  destruct (Req_EM_T (- (1 / 2) * b) 0) as [B0|Bn].
+  - simpl. f_equal. f_equal. assert (b = 0) by lra. subst b. field. assumption.
+  - assert (Bb : b <> 0) by (intro Z; apply Bn; rewrite Z; ring).
+    assert (Ec : c / (- (1 / 2) * b) = - (1 / 2) * b / a).
+    { assert (c = (- (1 / 2) * b) * (- (1 / 2) * b) / a) by (field_simplify_eq; [lra|assumption]).
+      rewrite H at 1. field. repeat split; assumption. }
+    destruct (Req_EM_T _ _) as [_|N]; [|exfalso; apply N; symmetry; exact Ec].
+    simpl. f_equal. f_equal. rewrite Ec. field. assumption.
+Qed.
+
+(* disc > 0: two distinct values, both unmasked, increasing, and they are ALL the real roots *)
+Theorem quad_positive_disc : forall a b c, a <> 0 -> 0 < disc a b c ->
+  exists u v, quad_roots a b c = (Some u, Some v) /\ u < v /\
+    forall r, is_root2 a b c r <-> (r = u \/ r = v).
+Proof.
+  intros a b c Ha Hd.
+  pose proof (term_nonzero a b c Hd) as Tn. pose proof (term_identity a b c (Rlt_le _ _ Hd)) as Ht.
+  cbv zeta in Tn, Ht.
+  assert (Eraw : exists t, t <> 0 /\ t * t + b * t + a * c = 0 /\ t / a <> c / t /\
+                           quad_raw a b c = (Some (c / t), Some (t / a))).
+  { unfold quad_raw. destruct (Rlt_dec _ 0) as [L|_]; [rewrite half_disc in L; lra|].
+    set (t := - (1 / 2) * b + sgn1 (- (1 / 2) * b) * sqrt (- (1 / 2) * b * (- (1 / 2) * b) - a * c)) in *.
+    clearbody t. exists t. destruct (Req_EM_T a 0); [contradiction|]. destruct (Req_EM_T t 0); [contradiction|].
+    assert (N : t / a <> c / t).
+    { intro E. assert (E2 : t * t = a * c).
+      { apply (Rmult_eq_compat_r (a * t)) in E. field_simplify in E; try assumption; lra. }
+      (* then b t = -2 a c and t^2 = a c give t (2t + b) = 0, so t = -b/2, i.e. sqrt disc = 0 *)
+      assert (E3 : t * (2 * t + b) = 0) by lra.
+      apply Rmult_integral in E3. destruct E3 as [|E3]; [contradiction|].
+      unfold disc in Hd. assert (Eb : b = - 2 * t) by lra.
+      assert (b * b = 4 * (t * t)) by (rewrite Eb; ring). lra. }
+    repeat split; try assumption. destruct (Req_EM_T _ _); [contradiction|reflexivity]. }
+  destruct Eraw as (t & Tnz & Tid & N & Eraw).
+  assert (Fact : forall r, a * r * r + b * r + c = a * (r - c / t) * (r - t / a)).
+  { intros r. assert (Hb : b = - (t * t + a * c) / t) by (field_simplify_eq; [lra|assumption]).
+    rewrite Hb. field. split; assumption. }
+  assert (Roots : forall r, is_root2 a b c r <-> (r = c / t \/ r = t / a)).
+  { intros r. unfold is_root2. rewrite Fact. split.
+    - intros H. apply Rmult_integral in H. destruct H as [H|H]; [|right; lra].
+      apply Rmult_integral in H. destruct H as [H|H]; [contradiction|left; lra].
+    - intros [-> | ->]; ring. }
+  unfold quad_roots. rewrite Eraw. simpl. destruct (Rlt_dec (t / a) (c / t)) as [L|G].
+  - exists (t / a), (c / t). split; [reflexivity|]. split; [assumption|]. intros r. rewrite Roots. tauto.
+  - exists (c / t), (t / a). split; [reflexivity|]. split; [lra|]. intros r. rewrite Roots. tauto.
 Qed.
